@@ -814,7 +814,31 @@ class Context:
                 )
             except (ValueError, RecursionError) as e:
                 raise JSSyntaxError(f"JSON.parse: {e}")
-            return ctx._to_js(py_value)
+            result = ctx._to_js(py_value)
+            reviver = args[1] if len(args) > 1 else UNDEFINED
+            if not (isinstance(reviver, JSFunction) or callable(reviver)):
+                return result
+
+            def revive(holder, name):
+                """InternalizeJSONProperty: children first, then the value itself."""
+                value = holder.get_own(name)
+                if isinstance(value, JSArray):
+                    for i in range(len(value._elements)):
+                        value._elements[i] = revive(value, str(i))
+                elif isinstance(value, JSObject):
+                    for key in value.keys():
+                        revived = revive(value, key)
+                        if revived is UNDEFINED:
+                            value.delete(key)
+                        else:
+                            value.set(key, revived)
+                if isinstance(reviver, JSFunction):
+                    return ctx._call_function(reviver, [name, value], holder)
+                return from_python(reviver(name, value))
+
+            root = JSObject(self._object_prototype)
+            root.set("", result)
+            return revive(root, "")
 
         def quote_json(text):
             """QuoteJSONString: only what the JSON grammar requires is escaped."""
@@ -844,6 +868,43 @@ class Context:
             value = args[0] if args else UNDEFINED
             in_progress = []  # containers being serialized (cycle detection)
 
+            # The replacer: a function (key, value) -> value, or a list of the keys
+            # to keep
+            replacer = args[1] if len(args) > 1 else UNDEFINED
+            replacer_fn = None
+            allowed_keys = None
+            if isinstance(replacer, JSArray):
+                allowed_keys = []
+                for item in replacer._elements:
+                    if isinstance(item, bool) or not isinstance(item, (int, float, str)):
+                        continue
+                    name = to_string(item)
+                    if name not in allowed_keys:
+                        allowed_keys.append(name)
+            elif isinstance(replacer, JSFunction) or (
+                callable(replacer) and not isinstance(replacer, JSObject)
+            ):
+                replacer_fn = replacer
+
+            # The indentation: up to ten spaces, or the first ten characters of a string
+            space = args[2] if len(args) > 2 else UNDEFINED
+            gap = ""
+            if isinstance(space, str):
+                gap = space[:10]
+            elif isinstance(space, (int, float)) and not isinstance(space, bool):
+                gap = " " * max(0, min(10, to_integer(space)))
+
+            def layout(open_ch, parts, close_ch, indent):
+                if not parts:
+                    return open_ch + close_ch
+                if not gap:
+                    return open_ch + ",".join(parts) + close_ch
+                inner = indent + gap
+                return (
+                    open_ch + "\n" + inner + (",\n" + inner).join(parts)
+                    + "\n" + indent + close_ch
+                )
+
             def own_value(obj, key):
                 """obj[key] for an own key: an accessor property is read through its getter."""
                 if obj.is_accessor(key):
@@ -855,12 +916,20 @@ class Context:
                     return from_python(getter())
                 return obj.get(key)
 
-            def serialize(v, key=""):
+            def serialize(v, key="", holder=None, indent=""):
                 """SerializeJSONProperty: the JSON text, or None for undefined."""
                 if isinstance(v, JSObject) and not isinstance(v, JSCallableObject):
                     to_json = v.get("toJSON")
                     if isinstance(to_json, JSFunction):
                         v = ctx._call_function(to_json, [key], v)
+                if replacer_fn is not None:
+                    if holder is None:
+                        holder = JSObject(self._object_prototype)
+                        holder.set("", v)
+                    if isinstance(replacer_fn, JSFunction):
+                        v = ctx._call_function(replacer_fn, [key, v], holder)
+                    else:
+                        v = from_python(replacer_fn(key, v))
                 if v is NULL:
                     return "null"
                 if isinstance(v, bool):
@@ -881,16 +950,21 @@ class Context:
                 try:
                     if isinstance(v, JSArray):
                         items = [
-                            serialize(elem, str(i)) or "null"
-                            for i, elem in enumerate(v._elements)
+                            serialize(elem, str(i), v, indent + gap) or "null"
+                            for i, elem in enumerate(list(v._elements))
                         ]
-                        return "[" + ",".join(items) + "]"
+                        return layout("[", items, "]", indent)
                     members = []
-                    for name in v.keys():
-                        text = serialize(own_value(v, name), name)
+                    names = v.keys()
+                    if allowed_keys is not None:
+                        names = [name for name in allowed_keys if name in names]
+                    for name in names:
+                        text = serialize(own_value(v, name), name, v, indent + gap)
                         if text is not None:
-                            members.append(quote_json(name) + ":" + text)
-                    return "{" + ",".join(members) + "}"
+                            members.append(
+                                quote_json(name) + (": " if gap else ":") + text
+                            )
+                    return layout("{", members, "}", indent)
                 finally:
                     in_progress.pop()
 
